@@ -357,7 +357,7 @@ fn light(ctx: &mut Ctx, x: &BitVectorMut, m: &[bool], rng: &mut Rng, step: usize
     ctx.obs("BitVectorMut", "is_empty", None, &|| w("is_empty()"), n == 0, || x.is_empty(), |b| *b as u64);
     ctx.obs("BitVectorMut", "count_ones", None, &|| w("count_ones()"), ones, || x.count_ones(), h_usize);
     ctx.obs("BitVectorMut", "count_zeros", None, &|| w("count_zeros()"), n - ones, || x.count_zeros(), h_usize);
-    let mut pos = vec![0usize, n.saturating_sub(1), n, n + 1];
+    let mut pos = vec![0usize, n.saturating_sub(1), n, n + 1, usize::MAX, (1usize << 63) + n / 2];
     for _ in 0..3 {
         pos.push(rng.usize_below(n + 1));
     }
